@@ -100,30 +100,82 @@ fn name_fields(buf: &[u8]) -> Option<Vec<(u8, Vec<u8>)>> {
     Some(out)
 }
 
-/// marshal a message that carries `s` in header position k (0 path, 1 interface, 2 member,
-/// 3 error name, 4 destination, 5 sender) and valid names everywhere else
-fn wire(k: usize, s: &str, bo: ByteOrder) -> char {
+const DEFAULTS: [&str; 6] = ["/x", "a.b", "m", "e.f", "c.d", ":1.2"];
+/// name fields each message type requires (positions: 0 path, 1 interface, 2 member, 3 error name,
+/// 4 destination, 5 sender): Call, Signal, Reply, Error
+const REQUIRED: [&[usize]; 4] = [&[0, 2], &[0, 1, 2], &[], &[3]];
+const CODES: [u8; 6] = [1, 2, 3, 4, 6, 7];
+
+/// marshal a message of type `typ` (0 Call, 1 Signal, 2 Reply, 3 Error) that carries `s` in header
+/// position k, the fields the type requires, and (full) all other name fields, with valid defaults
+fn wire1(k: usize, s: &str, bo: ByteOrder, typ: usize, full: bool) -> char {
     let r = catch_unwind(AssertUnwindSafe(|| {
-        let member = if k == 2 { s } else { "m" };
-        let path = if k == 0 { s } else { "/x" };
-        let iface = if k == 1 { s } else { "a.b" };
-        let dest = if k == 4 { s } else { "c.d" };
-        let mut msg: MarshalledMessage = MessageBuilder::with_byteorder(bo)
-            .call(member)
-            .on(path)
-            .with_interface(iface)
-            .at(dest)
-            .build();
-        msg.dynheader.sender = Some(if k == 5 { s } else { ":1.2" }.to_string());
-        msg.dynheader.error_name = Some(if k == 3 { s } else { "e.f" }.to_string());
-        let mut expected: Vec<(u8, Vec<u8>)> = vec![
-            (1, path.as_bytes().to_vec()),
-            (2, iface.as_bytes().to_vec()),
-            (3, member.as_bytes().to_vec()),
-            (4, msg.dynheader.error_name.clone().unwrap().into_bytes()),
-            (6, dest.as_bytes().to_vec()),
-            (7, msg.dynheader.sender.clone().unwrap().into_bytes()),
-        ];
+        let present = |j: usize| full || j == k || REQUIRED[typ].contains(&j);
+        let val = |j: usize| if j == k { s } else { DEFAULTS[j] };
+        // the public constructors first (they carry the strings into the header) ...
+        let mut msg: MarshalledMessage = match typ {
+            0 => {
+                let mut b = MessageBuilder::with_byteorder(bo).call(val(2)).on(val(0));
+                if present(1) {
+                    b = b.with_interface(val(1));
+                }
+                if present(4) {
+                    b = b.at(val(4));
+                }
+                b.build()
+            }
+            1 => {
+                let mut b = MessageBuilder::with_byteorder(bo).signal(val(1), val(2), val(0));
+                if present(4) {
+                    b = b.to(val(4));
+                }
+                b.build()
+            }
+            _ => {
+                let orig = rustbus::message_builder::DynamicHeader {
+                    sender: if present(4) { Some(val(4).to_string()) } else { None },
+                    serial: NonZeroU32::new(7),
+                    ..Default::default()
+                };
+                if typ == 2 {
+                    orig.make_response()
+                } else {
+                    orig.make_error_response(val(3), None)
+                }
+            }
+        };
+        // ... then the remaining fields directly
+        let set = |j: usize| if present(j) { Some(val(j).to_string()) } else { None };
+        let dh = &mut msg.dynheader;
+        if dh.object.is_none() {
+            dh.object = set(0);
+        }
+        if dh.interface.is_none() {
+            dh.interface = set(1);
+        }
+        if dh.member.is_none() {
+            dh.member = set(2);
+        }
+        if dh.error_name.is_none() {
+            dh.error_name = set(3);
+        }
+        if dh.destination.is_none() {
+            dh.destination = set(4);
+        }
+        if dh.sender.is_none() {
+            dh.sender = set(5);
+        }
+        let fields = [&dh.object, &dh.interface, &dh.member, &dh.error_name, &dh.destination, &dh.sender];
+        let mut expected: Vec<(u8, Vec<u8>)> = Vec::new();
+        for j in 0..6 {
+            // the message must carry exactly the intended subset
+            if fields[j].as_deref() != (if present(j) { Some(val(j)) } else { None }) {
+                return 'x';
+            }
+            if let Some(v) = fields[j] {
+                expected.push((CODES[j], v.as_bytes().to_vec()));
+            }
+        }
         let mut buf = Vec::new();
         match marshal(&msg, NonZeroU32::new(1).unwrap(), &mut buf) {
             Err(_) => 'e',
@@ -131,7 +183,7 @@ fn wire(k: usize, s: &str, bo: ByteOrder) -> char {
                 Some(mut got) => {
                     got.sort();
                     expected.sort();
-                    if got == expected {
+                    if got == expected && buf[1] == [1u8, 4, 2, 3][typ] {
                         'o'
                     } else {
                         'x'
@@ -140,6 +192,77 @@ fn wire(k: usize, s: &str, bo: ByteOrder) -> char {
                 None => 'x',
             },
         }
+    }));
+    r.unwrap_or('p')
+}
+
+/// (summary letter, detail): the letter common to all 8 configurations, or 'm' and the 8 letters
+fn wire(k: usize, s: &str, bo: ByteOrder) -> (char, Option<String>) {
+    let d: String = (0..8).map(|c| wire1(k, s, bo, c / 2, c % 2 == 1)).collect();
+    let first = d.chars().next().unwrap();
+    if d.chars().all(|c| c == first) {
+        (first, None)
+    } else {
+        ('m', Some(format!("{}={}", k, d)))
+    }
+}
+
+/// push a wrapper with the typed API and read the value back from the body bytes
+fn typed_marshal<S: AsRef<str>>(p: &ObjectPath<S>, s: &str) -> char {
+    let mut body = MarshalledMessageBody::with_byteorder(ByteOrder::LittleEndian);
+    match body.push_param(p) {
+        Err(_) => 'n',
+        Ok(()) => {
+            let mut msg = MarshalledMessage::with_byteorder(ByteOrder::LittleEndian);
+            msg.body = body;
+            let b = msg.get_buf();
+            let ok = msg.get_sig() == "o"
+                && b.len() == 4 + s.len() + 1
+                && rd_u32(b'l', &b[0..4]) == s.len()
+                && &b[4..4 + s.len()] == s.as_bytes()
+                && b[4 + s.len()] == 0;
+            if ok {
+                'o'
+            } else {
+                'x'
+            }
+        }
+    }
+}
+
+/// every public way of making an ObjectPath wrapper, followed by the typed Marshal impl:
+/// 0 ObjectPath::<String>::new, 1 TryFrom<&str>, 2 TryFrom<String>, 3 new(&str) and its to_owned()
+fn ctor(which: usize, s: &str) -> char {
+    use std::convert::TryFrom;
+    let r = catch_unwind(AssertUnwindSafe(|| match which {
+        0 => match ObjectPath::<String>::new(s.to_string()) {
+            Err(_) => 'e',
+            Ok(p) if p.as_ref() != s => 'x',
+            Ok(p) => typed_marshal(&p, s),
+        },
+        1 => match ObjectPath::<&str>::try_from(s) {
+            Err(_) => 'e',
+            Ok(p) if p.as_ref() != s => 'x',
+            Ok(p) => typed_marshal(&p, s),
+        },
+        2 => match ObjectPath::<String>::try_from(s.to_string()) {
+            Err(_) => 'e',
+            Ok(p) if p.as_ref() != s => 'x',
+            Ok(p) => typed_marshal(&p, s),
+        },
+        _ => match ObjectPath::new(s) {
+            Err(_) => 'e',
+            Ok(p) if p.as_ref() != s => 'x',
+            Ok(p) => {
+                let o = p.to_owned();
+                let (a, b) = (typed_marshal(&p, s), typed_marshal(&o, s));
+                if o.as_ref() == s && a == b {
+                    a
+                } else {
+                    'x'
+                }
+            }
+        },
     }));
     r.unwrap_or('p')
 }
@@ -197,15 +320,21 @@ fn eval(s: &str, n: u64) -> (bool, bool, String) {
     } else {
         ByteOrder::BigEndian
     };
-    let w: String = (0..6).map(|k| wire(k, s, bo)).collect();
+    let ws: Vec<(char, Option<String>)> = (0..6).map(|k| wire(k, s, bo)).collect();
+    let w: String = ws.iter().map(|x| x.0).collect();
+    let wd: Vec<String> = ws.into_iter().filter_map(|x| x.1).collect();
     let y = body_path(s);
-    let interesting = [p, i, e, b, m, o].iter().any(|v| *v != "err") || w != "eeeeee" || y != 'e';
+    let t: String = (0..4).map(|k| ctor(k, s)).collect();
+    let interesting = [p, i, e, b, m, o].iter().any(|v| *v != "err")
+        || w != "eeeeee"
+        || y != 'e'
+        || t != "eeee";
     let nontrivial = interesting || (s.chars().any(is_sep) && s.chars().any(is_name_char));
     (
         interesting,
         nontrivial,
         format!(
-            "{} P:{} I:{} E:{} B:{} M:{} O:{} W:{} Y:{}",
+            "{} P:{} I:{} E:{} B:{} M:{} O:{} W:{} Y:{} T:{}{}",
             hex(s.as_bytes()),
             p,
             i,
@@ -214,7 +343,13 @@ fn eval(s: &str, n: u64) -> (bool, bool, String) {
             m,
             o,
             w,
-            y
+            y,
+            t,
+            if wd.is_empty() {
+                String::new()
+            } else {
+                format!(" WD:{}", wd.join(","))
+            }
         ),
     )
 }
